@@ -57,8 +57,23 @@ def rule_print_gate(check):
             ok = ok and empty
             detail.append("%s=%s" % (nm, "empty" if empty else hir.describe(e)))
         osm = flds.get("original_source_map", {})
-        nones = [x for x in hir.walk(osm) if x.get("k") == "Path" and (x["res"].get("ctor_path") or "").split("::")[-1] == "None"]
-        no_map = (osm.get("k") == "Struct" and len(nones) == 2) or (hir.is_call(osm) and hir.callee_name(osm) == "default")
+        def _no_map(e_, depth=0):
+            """an OriginalSourceMap without a map and without a comment: the literal with two `None`s, the
+            derived default, or a crate constructor all of whose results are one of these"""
+            e_ = hir.peel(e_)
+            if e_.get("k") == "Struct":
+                ns_ = [x for x in hir.walk(e_) if x.get("k") == "Path" and (x["res"].get("ctor_path") or "").split("::")[-1] == "None"]
+                return len(ns_) == 2 and len(e_.get("fields", [])) == 2
+            if hir.is_call(e_):
+                h_ = prog.resolve_local(e_)
+                if h_ is not None and h_.body is not None and not h_.rec.get("gen") and depth < 3:
+                    from ..prov import return_exprs as _re
+                    rs_ = _re(h_.body)
+                    return bool(rs_) and all(_no_map(r_, depth + 1) for r_ in rs_)
+                return hir.callee_name(e_) == "default"
+            return False
+
+        no_map = _no_map(osm)
         ok = ok and no_map
         check.expect(ok, R, R + "/not-modified-empty", hir.loc(site), "NotModified: %s, no original map" % ", ".join(detail), "the non-printed result is not empty or not confined to NotModified: %s%s" % (", ".join(detail), "" if no_map else ", original map present"))
     check.expect(n_empty >= 1, R, R + "/arms", hir.loc(f.rec), "transform_js has a printed (Modified) and an empty (NotModified) result", "transform_js builds no empty result for NotModified")
